@@ -559,6 +559,7 @@ def _open_roles(ctx: Context):
         return None
     pass_edges, fail_edges = [], []
     roles = {}
+    undecided = False
     for n, t in tests:
         loc = ctx.loc(f, n)
         if t[0] == "call" and t[1][0] == "attr" and t[1][2] == "endswith":
@@ -568,6 +569,7 @@ def _open_roles(ctx: Context):
         form = _tag_comparison(t)
         if form is None:
             ck.unknown("C18.T2", f"open: unrecognised tag comparison {show(t, 120)}", loc)
+            undecided = True
             continue
         tag_t, exp_t, lab = form
         pass_edges += ctx.edges(cfg, n, lab)
@@ -636,6 +638,8 @@ def _open_roles(ctx: Context):
         else:
             ck.unknown("C18.T2", f"open: expected one tag comparison, found {len(tests)}", f.loc())
     # gate: no key-stream use and no non-None return before the comparison passed
+    if undecided:
+        return None  # a comparison of unrecognised form cannot be told from a missing one: already reported as UNKNOWN
     for dn, _dt in dec_nodes:
         ctx.must_pass("C18.T2", cfg, dn, "tag comparison [match outcome]", pass_edges,
                       desc=f"open: `{dn.text()[:50]}` (decryption) only after the truncated tag matched")
